@@ -1,5 +1,6 @@
 import ParanoidModel.Driver.Common
 import ParanoidModel.Model.RsaChecks
+import ParanoidModel.Model.Patterns
 import ParanoidModel.Driver.Rng
 namespace Paranoid.Driver
 open Paranoid.Proto
@@ -54,6 +55,12 @@ def rsaCheckOps : Dispatcher := fun op args =>
   | "chk.pm1_exps", [bound] => do
       let bound ← parseOptNat? bound
       pure (fmtNatList (pollardExpsDocumented bound))
+  | "pat.periodic", [w, ps, l] => do
+      let w ← parseNat? w; let ps ← parseNat? ps; let l ← parseNat? l
+      pure (hexNatF (Permuted.periodicTop w ps l))
+  | "pat.swap", [ws, m, x] => do
+      let ws ← parseNat? ws; let m ← parseNat? m; let x ← parseNatF? x
+      pure (hexNatF (Permuted.swapLimbs ws m x))
   | "chk.lhw", [n, cutoff, maxsteps] => do
       let n ← parseNat? n; let c ← parseNat? cutoff; let ms ← parseNat? maxsteps
       pure ("ok " ++ fmtVerdict (vLhw n c ms))
